@@ -24,7 +24,10 @@ CLAIMED = {
        "reference HKDF/HMAC/SHA-2 are run on fresh random inputs and compared byte for byte (~58k derivations quick). Transcript values (Props.C13Transcript: "
        "interim_confirmed_chain, membership_tag_chain, confirmed_binds, interim_binds): the confirmed and interim transcript hash of every public commit and the membership tag of every "
        "public commit / proposal of random mixed-provider histories are recomputed by the model from the RAW message bytes (decoded with the generated codec records of C12) and compared "
-       "with the members' values (`th` / `mtag` rows; the repository's interop transcript vectors are `#guard`-checked as well). `thp` rows: the same two hashes for ENCRYPTED commits (wire format 2) from the FramedContent, signature and tag a receiver decrypts (hook verif_open_private_message).",
+       "with the members' values (`th` / `mtag` rows; the repository's interop transcript vectors are `#guard`-checked as well). `thp` rows: the same two hashes for ENCRYPTED commits (wire format 2) from the FramedContent, signature and tag a receiver decrypts (hook verif_open_private_message). "
+       "`eks` rows: for every commit WITHOUT an update path of those histories (and of the C18 PSK scenarios) the epoch the real group enters - resumption, sender-data, encryption, exporter, authentication, "
+       "external and init secret, membership key and the commit's confirmation tag - is recomputed by KS.epochOfCommit from the previous epoch's init secret, the all-zero commit secret, the NEW group context and the "
+       "PSK ids (nonces as sent) in the order of the commit message: ties how the group state machine drives the schedule, which no agreement oracle can see.",
   note="Trusted: Lean kernel; Lean SHA-2/HMAC/HKDF reference (checked against published vectors and python hashlib, not proved); hand-written model validated by the "
        "byte-level correspondence. Straight-line parts of the schedule are near-rfl; content is in the secret tree, ratchet, PSK chain. Transcript hashes and membership tags of ENCRYPTED handshake "
        "messages are exercised by the group-level agreement oracle only. "
@@ -36,8 +39,12 @@ CLAIMED = {
        "the acceptance window is exactly [gen, gen+1024] plus stored skipped keys (window_exact), every permutation of an in-window set yields each key exactly once "
        "(permutation_complete), sender generations increase by one (sender_fresh*), and under a collision-free KDF distinct (leaf, type, generation) give distinct "
        "(key, nonce) so application and handshake never share keys (key_injective, proved non-vacuous for a term algebra). Tie: request scripts of the real secret tree vs the "
-       "compiled model; direct oracle on real groups: the RecordingProvider log of every aead_seal has no repeated (key, nonce), every ciphertext is accepted exactly once "
-       "under permuted/duplicated delivery with reloads, and the 1024 boundary is exact. The model follows the repaired message_key_generation (fix F36): "
+       "compiled model, incl. the secret tree of every REAL epoch of the group scenarios replayed from the epoch's encryption secret (`st.new` / `st.get` rows: the key and the nonce-before-guard of "
+       "every content seal) and `sdk` rows (sender-data key / nonce from the ciphertext sample); direct oracle on real groups: every aead_seal is classified by its AAD (content / sender data / welcome), the "
+       "sender-data plaintext gives (leaf, generation, reuse guard): no content key, no nonce-before-guard and no (epoch, leaf, ratchet, generation) is used twice, generations are consecutive per ratchet, "
+       "application and handshake keys are disjoint; every ciphertext is accepted exactly once under permuted / duplicated delivery with reloads, the 1024 boundary is exact on both ratchets; members that "
+       "encrypt their handshake interleave application messages, encrypted proposals and the encrypted commit (receivers that saw none / some / all proposals), verdicts compared with the exact ratchet model "
+       "(ratchets_independent, handshake_unaffected_by_application). The model follows the repaired message_key_generation (fix F36): "
        "refused_future_generation_changes_nothing, rejected_request_changes_no_lookup, repair_same_success / repair_verdict (the early refusal changes the state only, never an accepted answer).",
   note="Trusted: Lean kernel, model validated by correspondence, harness oracles. Excluded and stated: u32 generation overflow within 2048 of 2^32 (counterexample "
        "permutation_near_overflow in the Props file), state roll-back to an older snapshot, real AEAD/KDF collision resistance (FreePrim hypothesis).",
@@ -72,9 +79,12 @@ CLAIMED = {
        "the branch check iff subset; supersets and replaced identities are refused; joinChecks_ok_iff characterises every parameter check (version, suite, epoch 1, group id, "
        "extensions) with one lemma per mismatch; frozen_after_reinit. Tie: random old groups (2-7 members, interior blank leaves, re-keyed members) x successor kind x member set "
        "(equal/subset/superset/replaced) on the real library: creation, every old member's join, outsider and plain-join refusal, freeze of the old group; a dishonest old member (hook ReinitClient::verif_deviate) creates the successor "
-       "with another group id / other extensions than announced and every old member's join must refuse it; `sub` rows (membership) and `join` rows (joinChecks verdict incl. error class) replayed on the model.",
-  note="Trusted: Lean kernel; identities abstracted to numbers (IdentityProvider::identity); the resumption-PSK binding itself is cryptographic (C18/C13). Group-id and extension "
-       "mismatches are exercised on the implementation; version / suite / epoch mismatches are proved on the model only (not constructible with the right PSK).",
+       "with another group id / other extensions / another protocol version / another cipher suite than announced or for an epoch other than 1 (hooks verif_deviate_params, verif_branch_deviating: commits before the Welcome; key package the victim "
+       "published for the other suite) and every honest member's join must refuse it with the error class the model gives (joinChecks_*_iff fix the order of the checks); after the re-init commit every kind of commit built or received "
+       "(empty, Add, Remove, PSK, ReInit, detached, from a member ignoring the freeze, external) is refused with the state unchanged (`frz` rows; frozen_refuses_every_commit, frozen_forever, epoch_stops_after_reinit); "
+       "`sub` rows (membership) and `join` rows (joinChecks verdict incl. error class) replayed on the model.",
+  note="Trusted: Lean kernel; identities abstracted to numbers (IdentityProvider::identity); the resumption-PSK binding itself is cryptographic (C18/C13). All five parameter "
+       "mismatches are exercised on the implementation (a version mismatch needs clients that declare a second protocol version); not constructed: a re-init to a suite with another signature scheme, a branch deviating in extensions.",
   ref="DESIGN.md §4 C17"),
  "C04": dict(
   technique="Lean 4 proof (atomicity of well-ordered step lists) instantiated by `decide` at step lists GENERATED from the Rust source by a translator + rejection / fault sweeps with full-state comparison",
@@ -214,7 +224,8 @@ CLAIMED = {
        "no clock = no verdict, a later receiver accepts until not_after; tie: directed scenario (key package with a chosen window, commit_time before / inside / after it, by value and by "
        "reference, receivers with clocks before / inside / after / none) as `life` rows on the model + oracle. Further directed scenarios (oracle only): a by-reference resumption PSK of an epoch "
        "the committer no longer retains (defect F35, fixed: dropped, reported unused), credential types (clients supporting [basic] / [basic, custom]; by value refused, by reference dropped, "
-       "two mutually exclusive Adds: exactly one committed, all receivers agree), refused Updates (identities refused for one round).",
+       "two mutually exclusive Adds: exactly one committed, all receivers agree), refused Updates (identities refused for one round), and the receive side: the committer's own commit re-signed with "
+       "further proposals by reference / by value, unfiltered (hook edit WithProposals) — 11 rule-violating sets must be refused by every receiver on proposal-rule grounds, not later.",
   note="Trusted: Lean kernel; hand-written filter model validated by the rows; payload validity (signature, lifetime, capabilities, identity verdict, PSK presence) is an attribute of the abstract "
        "proposal. Group-context-extension and re-init mixes are proved on the model but not generated. Fixed defects found here: F1, F16 (revert-all lost leaves).",
   ref="DESIGN.md §4 C10"),
@@ -224,7 +235,9 @@ CLAIMED = {
        "epoch_binds_inputs / epoch_binds_psk_list / welcome_binds_psk_list (every secret of the new epoch and the Welcome key and nonce determine joiner secret, context and PSK list), "
        "holders_agree, too_many_psks_rejected; FreePsk is satisfiable (term-algebra Prim). Tie: per quick run 200 PSK commits on real members (external / resumption, by value / by reference, "
        "1-4 PSKs, per-member same / different / missing value, retention and join epoch) with the direct oracle (exactly the holders advance and agree; others reject unchanged; joiner needs the "
-       "PSKs) and ~1.6k rows where the compiled model recomputes psk_secret and the epoch secrets byte for byte. MlsVerif.Props.C18Repo: the repository's own lookup path for resumption "
+       "PSKs), ~1.6k rows where the compiled model recomputes psk_secret byte for byte under variations of value / id / nonce / order / count, and `eks` rows: for every path-less PSK commit of those scenarios "
+       "the secrets of the epoch the REAL group entered and the commit's confirmation tag are recomputed by KS.epochOfCommit (theorems commit_epoch_binds_psk_list, commit_holders_agree) from the previous init secret, the new "
+       "context and the commit's PSK list - ids and nonces as sent, in the order of the commit message (hook verif_commit_proposals; references resolved against the committer's cache), values from the harness's own bookkeeping. MlsVerif.Props.C18Repo: the repository's own lookup path for resumption "
        "secrets (Repo.resumptionSecret) returns what the epoch lookup returns (hence available exactly inside the retention window of C19), is read-only, and a PSK of another group never "
        "comes out of this group's caches (fix F32); tie: `repo.psk` rows of the storage scenarios (hook verif_resumption_secret_available) on both providers.",
   note="Trusted: Lean kernel; injective-KDF idealisation (a real hash is not injective: the theorem is the symbolic statement); Lean HKDF reference for the byte rows; harness.",
@@ -238,9 +251,10 @@ CLAIMED = {
        "PublicMessage, FramedContent / auth data, PrivateMessageContent padding, SecretKeyRatchet, CommitEffect, LeafIndex, ExtensionList); Props.C12GenCodecs proves it REFLECTIVELY "
        "(lawful_denote + decide on okSpec) for the 53 codec records the translator composes from derived and hand-written parts: MlsMessage, PublicMessage, AuthenticatedContent, Commit, "
        "UpdatePath, Proposal, LeafNode, KeyPackage, Node, exported tree, Credential, Snapshot, RawGroupState, PriorEpoch, SecretTree, PendingCommit, ExternalSnapshot, ... Tie: ~22k rows per "
-       "quick run: `dec` rows over 73 decodable schema types (structured-valid, mutated, random bytes) and ~4.5k `decc` rows where the composed codec models decode real and mutated "
+       "quick run: `dec` rows over 85 decodable schema types (every generated schema whose Rust type has a decoder, incl. module-private ones through probe hooks; the 16 others are encode-only or test-only, listed with reasons) (structured-valid, mutated, random bytes) and ~4.5k `decc` rows where the composed codec models decode real and mutated "
        "messages, key packages, GroupInfo, exported trees, snapshots, prior epochs and commit secrets harvested from random group histories; zero tolerated differences; plus the direct oracle "
-       "(no panic, exact length, canonical wire types, produced values round-trip, measured peak heap).",
+       "(no panic, exact length, canonical wire types, produced values round-trip, measured peak heap, a clock-free work bound - at most 2n+4 element decodes for n input bytes over containers of zero-size and "
+       "one-byte elements - and a per-call deadline: a watchdog thread reports type, phase and input of a single codec call that does not return within 20 s).",
   note="Trusted: Lean kernel; schema / codec extractor (validated by the rows). Stated deviations of the code from the property text, proved as witnesses: bool accepts any non-zero byte and maps "
        "accept any key order (non-canonical, state types only: no wire type contains either - repo_canon / wire_flags), vectors of zero-size elements do not round-trip (no repository type has "
        "one), ratchet history accepts duplicate generations. Canonicity of the composed WIRE codecs is checked by the rows and the oracle, not proved. Fixed defect found here: F33 (proposal type 0).",
